@@ -1747,5 +1747,76 @@ theorem c09_shape_Context_SendRaw :
     Shapes.context_Context_SendRaw =
    ["server.Send"] := rfl
 
+theorem c09_shape_TreeNodeInstance_SendTo :
+    Shapes.treenode_TreeNodeInstance_SendTo =
+   ["if:(to==nil)", "return:xerrors.New(\"\")", "msgDispatchQueueMutex.Lock", "if:n.closing",
+     "msgDispatchQueueMutex.Unlock", "return:xerrors.New(\"\")", "msgDispatchQueueMutex.Unlock",
+     "configMut.Lock", "if:!n.sentTo[]", "configMut.Unlock", "overlay.SendToTreeNode", "tx.add",
+     "if:(err!=nil)", "return:xerrors.Errorf(\"\",err)", "return:nil"] := rfl
+
+theorem c09_shape_TreeNodeInstance_Broadcast :
+    Shapes.treenode_TreeNodeInstance_Broadcast =
+   ["n.List", "n.TreeNode", "node.Equal", "n.SendTo"] := rfl
+
+theorem c09_shape_TreeNodeInstance_Multicast :
+    Shapes.treenode_TreeNodeInstance_Multicast =
+   ["n.SendTo"] := rfl
+
+theorem c09_shape_TreeNodeInstance_SendToParent :
+    Shapes.treenode_TreeNodeInstance_SendToParent =
+   ["if:n.IsRoot()", "return:nil", "n.Parent", "n.SendTo", "if:(err!=nil)",
+     "return:xerrors.Errorf(\"\",err)", "return:nil"] := rfl
+
+theorem c09_shape_TreeNodeInstance_SendToChildren :
+    Shapes.treenode_TreeNodeInstance_SendToChildren =
+   ["if:n.IsLeaf()", "return:nil", "n.Children", "n.SendTo", "if:(err!=nil)",
+     "return:xerrors.Errorf(\"\",err)", "return:nil"] := rfl
+
+theorem c09_shape_TreeNodeInstance_SendToChildrenInParallel :
+    Shapes.treenode_TreeNodeInstance_SendToChildrenInParallel =
+   ["n.IsLeaf", "n.Children", "node.Name", "wg.Add", "go{", "n.SendTo", "eMut.Lock",
+     "eMut.Unlock", "wg.Done", "}", "wg.Wait"] := rfl
+
+theorem c09_shape_Overlay_SendToTreeNode :
+    Shapes.overlay_Overlay_SendToTreeNode =
+   ["from.ChangeTreeNodeID", "if:(c!=nil)", "tokenTo.ID", "io.Wrap", "if:(err!=nil)",
+     "return:0,xerrors.Errorf(\"\",err)", "if:(confMsg!=nil)", "server.Send", "else",
+     "server.Send", "if:(err!=nil)", "return:sentLen,err"] := rfl
+
+theorem c09_shape_Overlay_requestTree :
+    Shapes.overlay_Overlay_requestTree =
+   ["o.savePendingMsg", "verifPoint:rt.parked", "treeStorage.Get", "if:(tree!=nil)",
+     "o.checkPendingMessages", "return:nil", "verifPoint:rt.recheck-miss", "io.Wrap",
+     "if:(err!=nil)", "return:xerrors.Errorf(\"\",err)",
+     "if:o.treeStorage.IsRegistered(onetMsg.To.TreeID)", "return:nil",
+     "verifPoint:rt.unregistered", "treeStorage.Register", "verifPoint:rt.registered",
+     "server.Send", "if:(err!=nil)", "treeStorage.Unregister", "return:xerrors.Errorf(\"\",err)",
+     "return:nil"] := rfl
+
+theorem c09_shape_tcp_NewTCPConn :
+    Shapes.network_tcp_NewTCPConn =
+   ["addr.NetworkAddress", "net.DialTimeout", "if:(err==nil)", "return:",
+     "if:(i<MaxRetryConnect)", "time.Sleep", "if:(err==nil)", "return:"] := rfl
+
+theorem c09_shape_tls_NewTLSConn :
+    Shapes.network_tls_NewTLSConn =
+   ["Address.ConnType", "us.GetPrivate", "tlsConfig", "makeVerifier", "Address.NetworkAddress",
+     "tls.DialWithDialer", "time.Sleep"] := rfl
+
+theorem c09_shape_local_LocalHost_Connect :
+    Shapes.network_local_LocalHost_Connect =
+   ["if:(si.Address.ConnType()!=Local)", "return:nil,xerrors.New(\"\")",
+     "NewLocalConnWithManager", "if:(err==nil)", "return:c,nil", "recv:After()", "time.After",
+     "recv:stopping", "return:nil,finalErr", "return:nil,finalErr"] := rfl
+
+theorem c09_shape_local_NewLocalConnWithManager :
+    Shapes.network_local_NewLocalConnWithManager =
+   ["lm.connect", "if:(err==nil)", "return:c,nil", "else", "if:(i==(MaxRetryConnect-1))",
+     "return:nil,xerrors.Errorf(\"\",err)", "time.Sleep", "return:nil,xerrors.New(\"\")"] := rfl
+
+theorem c09_shape_local_LocalManager_send :
+    Shapes.network_local_LocalManager_send =
+   ["lm.Lock", "defer:lm.Unlock", "send:incomingQueue"] := rfl
+
 
 end C09
